@@ -266,7 +266,7 @@ class Recorder:
             ob["distinct"] = h not in self._claims
             self._claims.add(h)
             if len(self.obligations) < 3:
-                ob["claim"] = str(claim)[:600]
+                ob["claim"] = claim.sexpr()[:600]
                 ob["free_symbols"] = sorted(sj.free_consts(claim))[:20]
         if r == "unsat":
             ob["verdict"] = "unsat"
